@@ -9,7 +9,9 @@
    [mode]: [Repaired] is the working tree: commit "follow-start-over" (= [Fixed1]: a resync from
    position 0 recreates the file AND clears dataset, hooks and aofsz; "fully intact" requires the
    matching part to be the whole file) plus proposed_fixes/C06-check-whole-prefix.diff (before any
-   part of the own log is kept, ONE more checksum compares all of it up to the resume position);
+   part of the own log is kept, ONE more checksum compares all of it up to the resume position) and
+   proposed_fixes/C06-caught-up-by-stream-position.diff (caught up = the stream has been consumed up
+   to the leader's aof_size, not "the own log has that size");
    [Pinned] is the code as found (small log: nothing is touched; first block differs: only the
    file is recreated; a matching part ending on a record boundary is "fully intact"). *)
 From Coq Require Import List ZArith Bool.
@@ -160,7 +162,9 @@ Section Follow.
 
   Record session := { s_rest : file;       (* records of the stream not yet handled *)
                       s_aofsize : Z;       (* the leader's aof_size from SERVER at connect time *)
-                      s_cu : bool }.       (* followStep's local caughtUp *)
+                      s_cu : bool;         (* followStep's local caughtUp *)
+                      s_pos : Z;           (* lpos: position in the leader's log of the next streamed command *)
+                      s_done : file }.     (* ghost (used by no decision): the records handed over so far *)
 
   Record fol := { f_file : file; f_mem : st; f_aofsz : Z; f_cup : bool; f_once : bool;
                   f_ses : option session; f_broken : bool }.
@@ -209,14 +213,14 @@ Section Follow.
         | Some rest =>
             let cu := aofsize <=? pos in
             {| f_file := fl; f_mem := mem; f_aofsz := sz; f_cup := cu; f_once := f_once f || cu;
-               f_ses := Some {| s_rest := rest; s_aofsize := aofsize; s_cu := cu |};
+               f_ses := Some {| s_rest := rest; s_aofsize := aofsize; s_cu := cu; s_pos := pos; s_done := [] |};
                f_broken := f_broken f |}
         end
     end.
 
   (* one iteration of followStep's read loop: followHandleCommand (apply; append to the own log
      iff updated; aofsz accounting) then the caught-up test *)
-  Definition deliver (f : fol) : fol :=
+  Definition deliver (md : mode) (f : fol) : fol :=
     match f_ses f with
     | None => f
     | Some s =>
@@ -226,14 +230,27 @@ Section Follow.
             let '(mem', upd) := app r (f_mem f) in
             let fl := if upd then f_file f ++ [r] else f_file f in
             let sz := if upd then f_aofsz f + blen r else f_aofsz f in
-            let hit := negb (s_cu s) && (s_aofsize s <=? sz) in   (* if !caughtUp && aofsz >= aofSize *)
+            let lpos := s_pos s + blen r in
+            (* Repaired (proposed_fixes/C06-caught-up-by-stream-position.diff): if !caughtUp && lpos >= aofSize;
+               before: if !caughtUp && aofsz >= aofSize *)
+            let hit := negb (s_cu s) && (s_aofsize s <=? match md with Repaired => lpos | _ => sz end) in
             {| f_file := fl; f_mem := mem'; f_aofsz := sz;
                f_cup := f_cup f || hit;
                f_once := f_once f || hit;
-               f_ses := Some {| s_rest := rest; s_aofsize := s_aofsize s; s_cu := s_cu s || hit |};
+               f_ses := Some {| s_rest := rest; s_aofsize := s_aofsize s; s_cu := s_cu s || hit;
+                                s_pos := lpos; s_done := s_done s ++ [r] |};
                f_broken := f_broken f |}
         end
     end.
+
+  (* the follower's own 100 ms sweeper (backgroundExpiring runs on followers too): an expired object or
+     hook is deleted and, if that updated, a record of the follower's OWN is appended to its log.
+     The replication session is not involved. *)
+  Definition own_append (r : record) (f : fol) : fol :=
+    let '(mem', upd) := app r (f_mem f) in
+    {| f_file := if upd then f_file f ++ [r] else f_file f; f_mem := mem';
+       f_aofsz := if upd then f_aofsz f + blen r else f_aofsz f;
+       f_cup := f_cup f; f_once := f_once f; f_ses := f_ses f; f_broken := f_broken f |}.
 
   Definition drop_conn (f : fol) : fol :=
     {| f_file := f_file f; f_mem := f_mem f; f_aofsz := f_aofsz f; f_cup := f_cup f;
@@ -250,7 +267,8 @@ Section Follow.
     | None => f
     | Some s => {| f_file := f_file f; f_mem := f_mem f; f_aofsz := f_aofsz f; f_cup := f_cup f;
                    f_once := f_once f;
-                   f_ses := Some {| s_rest := s_rest s ++ [r]; s_aofsize := s_aofsize s; s_cu := s_cu s |};
+                   f_ses := Some {| s_rest := s_rest s ++ [r]; s_aofsize := s_aofsize s; s_cu := s_cu s;
+                                   s_pos := s_pos s; s_done := s_done s |};
                    f_broken := f_broken f |}
     end.
 
@@ -262,19 +280,21 @@ Section Follow.
   | ERestart               (* the follower process restarts *)
   | EPause                 (* SIGSTOP ... SIGCONT: nothing happens in between *)
   | EAppend (r : record)   (* the leader acknowledges one more write *)
-  | EShrink (l' : file).   (* leader AOFSHRINK: the log is replaced, replication connections are closed *)
+  | EShrink (l' : file)    (* leader AOFSHRINK: the log is replaced, replication connections are closed *)
+  | EOwn (r : record).     (* the follower's own sweeper deletes an expired object / hook and logs it *)
 
   Definition step (md : mode) (w : file * fol) (e : event) : file * fol :=
     let '(l, f) := w in
     match e with
     | EBegin => (l, begin_connect f)
     | EConnect => (l, connect md l f)
-    | EDeliver => (l, deliver f)
+    | EDeliver => (l, deliver md f)
     | EDrop => (l, drop_conn f)
     | ERestart => (l, restart f)
     | EPause => (l, f)
     | EAppend r => (l ++ [r], leader_append r f)
     | EShrink l' => (l', drop_conn f)
+    | EOwn r => (l, own_append r f)
     end.
 
   Definition run (md : mode) (w : file * fol) (es : list event) : file * fol := fold_left (step md) es w.
